@@ -171,7 +171,10 @@ Definition strip_star (d : str) : str := strip_go d 0.
 
 (* ------------------------------------------------------------------------ *)
 (** * Specifications *)
-Inductive label_spec := LT (t : str) | LL (l : list str).
+(** [LTK tok t]: a template for a ParameterGenerator constructed with its own
+    label token ([ParameterGenerator(ltoken=tok)], custom pgen); [LT t] is
+    [LTK "%%" t] (the default token, every YAML study) *)
+Inductive label_spec := LT (t : str) | LL (l : list str) | LTK (tok t : str).
 
 (** [p_name = []] and [LT []] stand for Python's [None]/"" (defaults: the key,
     and ["KEY.%%"]); values are [str(v)] of the Python values *)
@@ -186,11 +189,15 @@ Record spec := mkSpec { sp_root : str; sp_rlimit : nat;
                         sp_params : list param; sp_steps : list step }.
 
 Definition pname (p : param) : str := match p_name p with [] => p_key p | n => n end.
-Definition ptemplate (p : param) (t : str) : str :=
-  match t with [] => p_key p ++ c_dot :: label_token | _ => t end.
+(** add_parameter: [label] if given, else ["{}.{}".format(key, self.label_token)];
+    get_combinations: [labels[key].replace(self.label_token, str(value))] *)
+Definition ptemplate_tok (tok : str) (p : param) (t : str) : str :=
+  match t with [] => p_key p ++ c_dot :: tok | _ => t end.
+Definition ptemplate (p : param) (t : str) : str := ptemplate_tok label_token p t.
 Definition labels_of (p : param) : list str :=
   match p_label p with
   | LT t => map (fun v => replace label_token v (ptemplate p t)) (p_vals p)
+  | LTK tok t => map (fun v => replace tok v (ptemplate_tok tok p t)) (p_vals p)
   | LL l => l
   end.
 Definition pval (p : param) (i : nat) : str := nth i (p_vals p) [].
